@@ -113,13 +113,15 @@ def _device(ctx, exe, wd, cov):
                 raise RuntimeError("rejection %s of config %s does not reproduce from its token path %s" % (sig, name, toks))
             ctx.violation(sig, "P monitor (reference decoder) rejects a path of the real EnhancedDevice's transition graph "
                           "(config %s, %d steps)" % (name, len(toks)), _replay({"harness": "c14_enh", "harness_args": args, "tokens": toks}, sig))
+        if not info["fixpoint"] and not found:
+            raise RuntimeError("no fix-point within maxnodes for config %s and no violation on the partial graph: %s" % (name, info))
         # S fidelity on the same graph (drift only)
-        fres, fbad = recs.judge(ctx, "C14Fid", "C14Fid.cfg", gf, workers=8, heap="6g", tag="C14-fid-" + name)
+        fres, fbad = recs.judge(ctx, "C14Fid", "C14Fid.cfg", gf, workers=8, heap="6g", tag="C14-fid-" + name) if info["fixpoint"] else (None, [])
         if fbad:
             drift_nodes += len(fbad)
             ctx.drift.append("S model of EnhancedDevice differs from the code on %d nodes of config %s (first: node %s edge %s)"
                              % (len(fbad), name, fbad[0][0], fbad[0][1]))
-        per[name] = {"graph_nodes": info["nodes"], "graph_edges": info["edges"], "fixpoint": True,
+        per[name] = {"graph_nodes": info["nodes"], "graph_edges": info["edges"], "fixpoint": bool(info["fixpoint"]),
                      "product_states": stats["distinct"], "product_transitions": stats["generated"], "tlc_runs": stats["runs"],
                      "signatures": [s for s, _ in found], "s_conforms": not fbad, "harness_args": " ".join(args)}
         states += stats["distinct"]; trans += stats["generated"]; nodes += info["nodes"]; edges += info["edges"]
@@ -191,7 +193,9 @@ def _transport(ctx, texe, wd, cov):
     for sig, toks in found:
         ctx.violation(sig, "transport monitor rejects a path of the real FileTransport's fill/consume graph (%d steps)" % len(toks),
                       {"harness": "c14_transport", "tokens": toks})
-    fres, fbad = recs.judge(ctx, "C14TFid", "C14TFid.cfg", gf, workers=4, heap="4g", tag="C14-tfid")
+    if not info["fixpoint"] and not found:
+        raise RuntimeError("transport graph: no fix-point and no violation on the partial graph: %s" % info)
+    fres, fbad = recs.judge(ctx, "C14TFid", "C14TFid.cfg", gf, workers=4, heap="4g", tag="C14-tfid") if info["fixpoint"] else (None, [])
     if fbad:
         ctx.drift.append("S model of FileTransport (32-byte buffer, overflow when more than 24 bytes are buffered at the next read) "
                          "differs from the code on %d nodes (first: node %s edge %s)" % (len(fbad), fbad[0][0], fbad[0][1]))
@@ -203,7 +207,7 @@ def _transport(ctx, texe, wd, cov):
     for sig, toks in rfound:
         ctx.violation(sig, "transport monitor rejects a recorded long run of the real FileTransport (step %d)" % len(toks),
                       {"harness": "c14_transport", "tokens": toks[-40:], "seed": ctx.seed})
-    cov["transport"] = {"graph_nodes": info["nodes"], "graph_edges": info["edges"], "fixpoint": True,
+    cov["transport"] = {"graph_nodes": info["nodes"], "graph_edges": info["edges"], "fixpoint": bool(info["fixpoint"]),
                         "product_states": stats["distinct"], "product_transitions": stats["generated"],
                         "signatures": [s for s, _ in found] + [s for s, _ in rfound], "s_conforms": not fbad,
                         "random_steps": rinfo["edges"], "random_stream_bytes": rinfo["bytes"]}
